@@ -12,7 +12,8 @@ def build_jobs(tier, seed):
     J = common.Job
     P = {'props': sorted(PROPS)}
     jobs = []
-    sizes = [(2, 2)] if tier == 'quick' else [(2, 3), (3, 2), (3, 3)]
+    sizes = [(2, 2), (2, 3), (3, 2)] if tier == 'quick' else \
+        [(2, 2), (2, 3), (3, 2), (3, 3), (2, 4), (4, 2), (3, 4)]
     for m, j in sizes:
         for mode in ('file', 'iter'):
             jobs.append(J(H['pipe'], dict(P, stubs=m, chunks=j, mode=mode),
@@ -28,7 +29,8 @@ def describe(tier):
         'bound': '(m stubs, chunks) = %s; file-like and iterator sources; '
         'expected_format ranges over None and every stub name; stream '
         'contents uninterpreted, chunk sizes symbolic (empty chunks '
-        'included)' % ('(2,2)' if tier == 'quick' else '(2,3),(3,2),(3,3)'),
+        'included)' % ('(2,2),(2,3),(3,2)' if tier == 'quick' else
+            '(2,2),(2,3),(3,2),(3,3),(2,4),(4,2),(3,4)'),
         'outside': 'allowed_formats subsets (covered by C03), genuine parser '
         'errors of the real inspectors (C03 only-ImageFormatError clause)',
     }
